@@ -1119,7 +1119,7 @@ func (p *pipe) Do(ctx context.Context, cmd Completed) (resp RedisResult) {
 		resp = NewErrorResult(p.Error())
 	}
 
-	if left := p.decrWaitsAndIncrRecvs(); state == 0 && left != 0 {
+	if left := p.decrWaitsAndIncrRecvs(); (state == 0 || waits == 1) && left != 0 { // waits == 1: callers queued behind us rely on us to start the worker, also when Close won the race for p.state
 		p.background()
 	}
 	return resp
@@ -1229,7 +1229,7 @@ func (p *pipe) DoMulti(ctx context.Context, multi ...Completed) *redisresults {
 			resp.s[i] = err
 		}
 	}
-	if left := p.decrWaitsAndIncrRecvs(); state == 0 && left != 0 {
+	if left := p.decrWaitsAndIncrRecvs(); (state == 0 || waits == 1) && left != 0 { // waits == 1: callers queued behind us rely on us to start the worker, also when Close won the race for p.state
 		p.background()
 	}
 	return resp
